@@ -377,6 +377,15 @@ func (loader *Loader) unvisitRef(ref string, value any) {
 	loader.visitedPath = loader.visitedPath[:len(loader.visitedPath)-1]
 }
 
+// refKey identifies a reference that is being resolved: the reference string together with the document it is
+// written in (the same string "#/components/schemas/X" in two documents names two different objects).
+func (loader *Loader) refKey(ref string, documentPath *url.URL) string {
+	if documentPath == nil || !strings.HasPrefix(ref, "#") {
+		return ref
+	}
+	return documentPath.String() + "\x00" + ref // never equal to a reference string as written
+}
+
 // wrongKind records that ref, which was waited for by a reference of one kind, resolved to an object of another.
 func (loader *Loader) wrongKind(ref string, got, want any) {
 	if loader.refKindErr == nil {
@@ -660,7 +669,8 @@ func (loader *Loader) resolveHeaderRef(doc *T, component *HeaderRef, documentPat
 		if component.Value != nil {
 			return nil
 		}
-		if !loader.shouldVisitRef(ref, func(value any) {
+		refKey := loader.refKey(ref, documentPath)
+		if !loader.shouldVisitRef(refKey, func(value any) {
 			v, ok := value.(*Header)
 			if !ok {
 				loader.wrongKind(ref, value, v)
@@ -672,7 +682,7 @@ func (loader *Loader) resolveHeaderRef(doc *T, component *HeaderRef, documentPat
 		}) {
 			return nil
 		}
-		loader.visitRef(ref)
+		loader.visitRef(refKey)
 		if isSingleRefElement(ref) {
 			var header Header
 			if documentPath, err = loader.loadSingleElementFromURI(ref, documentPath, &header); err != nil {
@@ -695,7 +705,7 @@ func (loader *Loader) resolveHeaderRef(doc *T, component *HeaderRef, documentPat
 			component.Value = resolved.Value
 			component.setRefPath(resolved.RefPath())
 		}
-		defer loader.unvisitRef(ref, component.Value)
+		defer loader.unvisitRef(refKey, component.Value)
 	}
 	value := component.Value
 	if value == nil {
@@ -766,7 +776,8 @@ func (loader *Loader) resolveParameterRef(doc *T, component *ParameterRef, docum
 		if component.Value != nil {
 			return nil
 		}
-		if !loader.shouldVisitRef(ref, func(value any) {
+		refKey := loader.refKey(ref, documentPath)
+		if !loader.shouldVisitRef(refKey, func(value any) {
 			v, ok := value.(*Parameter)
 			if !ok {
 				loader.wrongKind(ref, value, v)
@@ -778,7 +789,7 @@ func (loader *Loader) resolveParameterRef(doc *T, component *ParameterRef, docum
 		}) {
 			return nil
 		}
-		loader.visitRef(ref)
+		loader.visitRef(refKey)
 		if isSingleRefElement(ref) {
 			var param Parameter
 			if documentPath, err = loader.loadSingleElementFromURI(ref, documentPath, &param); err != nil {
@@ -801,7 +812,7 @@ func (loader *Loader) resolveParameterRef(doc *T, component *ParameterRef, docum
 			component.Value = resolved.Value
 			component.setRefPath(resolved.RefPath())
 		}
-		defer loader.unvisitRef(ref, component.Value)
+		defer loader.unvisitRef(refKey, component.Value)
 	}
 	value := component.Value
 	if value == nil {
@@ -839,7 +850,8 @@ func (loader *Loader) resolveRequestBodyRef(doc *T, component *RequestBodyRef, d
 		if component.Value != nil {
 			return nil
 		}
-		if !loader.shouldVisitRef(ref, func(value any) {
+		refKey := loader.refKey(ref, documentPath)
+		if !loader.shouldVisitRef(refKey, func(value any) {
 			v, ok := value.(*RequestBody)
 			if !ok {
 				loader.wrongKind(ref, value, v)
@@ -851,7 +863,7 @@ func (loader *Loader) resolveRequestBodyRef(doc *T, component *RequestBodyRef, d
 		}) {
 			return nil
 		}
-		loader.visitRef(ref)
+		loader.visitRef(refKey)
 		if isSingleRefElement(ref) {
 			var requestBody RequestBody
 			if documentPath, err = loader.loadSingleElementFromURI(ref, documentPath, &requestBody); err != nil {
@@ -874,7 +886,7 @@ func (loader *Loader) resolveRequestBodyRef(doc *T, component *RequestBodyRef, d
 			component.Value = resolved.Value
 			component.setRefPath(resolved.RefPath())
 		}
-		defer loader.unvisitRef(ref, component.Value)
+		defer loader.unvisitRef(refKey, component.Value)
 	}
 	value := component.Value
 	if value == nil {
@@ -914,7 +926,8 @@ func (loader *Loader) resolveResponseRef(doc *T, component *ResponseRef, documen
 		if component.Value != nil {
 			return nil
 		}
-		if !loader.shouldVisitRef(ref, func(value any) {
+		refKey := loader.refKey(ref, documentPath)
+		if !loader.shouldVisitRef(refKey, func(value any) {
 			v, ok := value.(*Response)
 			if !ok {
 				loader.wrongKind(ref, value, v)
@@ -926,7 +939,7 @@ func (loader *Loader) resolveResponseRef(doc *T, component *ResponseRef, documen
 		}) {
 			return nil
 		}
-		loader.visitRef(ref)
+		loader.visitRef(refKey)
 		if isSingleRefElement(ref) {
 			var resp Response
 			if documentPath, err = loader.loadSingleElementFromURI(ref, documentPath, &resp); err != nil {
@@ -949,7 +962,7 @@ func (loader *Loader) resolveResponseRef(doc *T, component *ResponseRef, documen
 			component.Value = resolved.Value
 			component.setRefPath(resolved.RefPath())
 		}
-		defer loader.unvisitRef(ref, component.Value)
+		defer loader.unvisitRef(refKey, component.Value)
 	}
 	value := component.Value
 	if value == nil {
@@ -1002,7 +1015,8 @@ func (loader *Loader) resolveSchemaRef(doc *T, component *SchemaRef, documentPat
 		if component.Value != nil {
 			return nil
 		}
-		if !loader.shouldVisitRef(ref, func(value any) {
+		refKey := loader.refKey(ref, documentPath)
+		if !loader.shouldVisitRef(refKey, func(value any) {
 			v, ok := value.(*Schema)
 			if !ok {
 				loader.wrongKind(ref, value, v)
@@ -1014,7 +1028,7 @@ func (loader *Loader) resolveSchemaRef(doc *T, component *SchemaRef, documentPat
 		}) {
 			return nil
 		}
-		loader.visitRef(ref)
+		loader.visitRef(refKey)
 		if isSingleRefElement(ref) {
 			var schema Schema
 			if documentPath, err = loader.loadSingleElementFromURI(ref, documentPath, &schema); err != nil {
@@ -1037,7 +1051,7 @@ func (loader *Loader) resolveSchemaRef(doc *T, component *SchemaRef, documentPat
 			component.Value = resolved.Value
 			component.setRefPath(resolved.RefPath())
 		}
-		defer loader.unvisitRef(ref, component.Value)
+		defer loader.unvisitRef(refKey, component.Value)
 	}
 	value := component.Value
 	if value == nil {
@@ -1093,7 +1107,8 @@ func (loader *Loader) resolveSecuritySchemeRef(doc *T, component *SecurityScheme
 		if component.Value != nil {
 			return nil
 		}
-		if !loader.shouldVisitRef(ref, func(value any) {
+		refKey := loader.refKey(ref, documentPath)
+		if !loader.shouldVisitRef(refKey, func(value any) {
 			v, ok := value.(*SecurityScheme)
 			if !ok {
 				loader.wrongKind(ref, value, v)
@@ -1105,7 +1120,7 @@ func (loader *Loader) resolveSecuritySchemeRef(doc *T, component *SecurityScheme
 		}) {
 			return nil
 		}
-		loader.visitRef(ref)
+		loader.visitRef(refKey)
 		if isSingleRefElement(ref) {
 			var scheme SecurityScheme
 			elementPath, err := loader.loadSingleElementFromURI(ref, documentPath, &scheme)
@@ -1129,7 +1144,7 @@ func (loader *Loader) resolveSecuritySchemeRef(doc *T, component *SecurityScheme
 			component.Value = resolved.Value
 			component.setRefPath(resolved.RefPath())
 		}
-		defer loader.unvisitRef(ref, component.Value)
+		defer loader.unvisitRef(refKey, component.Value)
 	}
 	return nil
 }
@@ -1139,7 +1154,8 @@ func (loader *Loader) resolveExampleRef(doc *T, component *ExampleRef, documentP
 		if component.Value != nil {
 			return nil
 		}
-		if !loader.shouldVisitRef(ref, func(value any) {
+		refKey := loader.refKey(ref, documentPath)
+		if !loader.shouldVisitRef(refKey, func(value any) {
 			v, ok := value.(*Example)
 			if !ok {
 				loader.wrongKind(ref, value, v)
@@ -1151,7 +1167,7 @@ func (loader *Loader) resolveExampleRef(doc *T, component *ExampleRef, documentP
 		}) {
 			return nil
 		}
-		loader.visitRef(ref)
+		loader.visitRef(refKey)
 		if isSingleRefElement(ref) {
 			var example Example
 			elementPath, err := loader.loadSingleElementFromURI(ref, documentPath, &example)
@@ -1175,7 +1191,7 @@ func (loader *Loader) resolveExampleRef(doc *T, component *ExampleRef, documentP
 			component.Value = resolved.Value
 			component.setRefPath(resolved.RefPath())
 		}
-		defer loader.unvisitRef(ref, component.Value)
+		defer loader.unvisitRef(refKey, component.Value)
 	}
 	return nil
 }
@@ -1189,7 +1205,8 @@ func (loader *Loader) resolveCallbackRef(doc *T, component *CallbackRef, documen
 		if component.Value != nil {
 			return nil
 		}
-		if !loader.shouldVisitRef(ref, func(value any) {
+		refKey := loader.refKey(ref, documentPath)
+		if !loader.shouldVisitRef(refKey, func(value any) {
 			v, ok := value.(*Callback)
 			if !ok {
 				loader.wrongKind(ref, value, v)
@@ -1201,7 +1218,7 @@ func (loader *Loader) resolveCallbackRef(doc *T, component *CallbackRef, documen
 		}) {
 			return nil
 		}
-		loader.visitRef(ref)
+		loader.visitRef(refKey)
 		if isSingleRefElement(ref) {
 			var resolved Callback
 			if documentPath, err = loader.loadSingleElementFromURI(ref, documentPath, &resolved); err != nil {
@@ -1224,7 +1241,7 @@ func (loader *Loader) resolveCallbackRef(doc *T, component *CallbackRef, documen
 			component.Value = resolved.Value
 			component.setRefPath(resolved.RefPath())
 		}
-		defer loader.unvisitRef(ref, component.Value)
+		defer loader.unvisitRef(refKey, component.Value)
 	}
 	value := component.Value
 	if value == nil {
@@ -1250,7 +1267,8 @@ func (loader *Loader) resolveLinkRef(doc *T, component *LinkRef, documentPath *u
 		if component.Value != nil {
 			return nil
 		}
-		if !loader.shouldVisitRef(ref, func(value any) {
+		refKey := loader.refKey(ref, documentPath)
+		if !loader.shouldVisitRef(refKey, func(value any) {
 			v, ok := value.(*Link)
 			if !ok {
 				loader.wrongKind(ref, value, v)
@@ -1262,7 +1280,7 @@ func (loader *Loader) resolveLinkRef(doc *T, component *LinkRef, documentPath *u
 		}) {
 			return nil
 		}
-		loader.visitRef(ref)
+		loader.visitRef(refKey)
 		if isSingleRefElement(ref) {
 			var link Link
 			elementPath, err := loader.loadSingleElementFromURI(ref, documentPath, &link)
@@ -1286,7 +1304,7 @@ func (loader *Loader) resolveLinkRef(doc *T, component *LinkRef, documentPath *u
 			component.Value = resolved.Value
 			component.setRefPath(resolved.RefPath())
 		}
-		defer loader.unvisitRef(ref, component.Value)
+		defer loader.unvisitRef(refKey, component.Value)
 	}
 	return nil
 }
@@ -1305,7 +1323,8 @@ func (loader *Loader) resolvePathItemRef(doc *T, pathItem *PathItem, documentPat
 		if !pathItem.isEmpty() {
 			return
 		}
-		if !loader.shouldVisitRef(ref, func(value any) {
+		refKey := loader.refKey(ref, documentPath)
+		if !loader.shouldVisitRef(refKey, func(value any) {
 			v, ok := value.(*PathItem)
 			if !ok {
 				loader.wrongKind(ref, value, v)
@@ -1316,7 +1335,7 @@ func (loader *Loader) resolvePathItemRef(doc *T, pathItem *PathItem, documentPat
 			waiting = true
 			return nil
 		}
-		loader.visitRef(ref)
+		loader.visitRef(refKey)
 		if isSingleRefElement(ref) {
 			var p PathItem
 			if documentPath, err = loader.loadSingleElementFromURI(ref, documentPath, &p); err != nil {
@@ -1350,10 +1369,10 @@ func (loader *Loader) resolvePathItemRef(doc *T, pathItem *PathItem, documentPat
 		pathItem.Ref = ref
 		if waiting {
 			// the chain of references reached no object: whoever waits for this reference waits in vain
-			defer loader.unvisitRef(ref, nil)
+			defer loader.unvisitRef(refKey, nil)
 			return
 		}
-		defer loader.unvisitRef(ref, pathItem)
+		defer loader.unvisitRef(refKey, pathItem)
 	}
 
 	for _, parameter := range pathItem.Parameters {
